@@ -218,9 +218,12 @@ def verify(env, c, thorough=False):
     def run(p):
         I = Interp(env.repo, p, env)
         fr_locals = {}
-        for name, srt in c.params.items():
-            fr_locals[name] = sorts.build(I, srt, name)
         pre = Frame(fi, fi.module, fr_locals, cls=fi.cls)
+        for name, srt in c.params.items():
+            if isinstance(srt, sorts.Expr):
+                fr_locals[name] = I.eval_src(srt.src, pre)
+            else:
+                fr_locals[name] = sorts.build(I, srt, name)
         if c.setup is not None:
             c.setup(I, fr_locals)
         for src in c.requires:
